@@ -389,10 +389,97 @@ func c25client(t *testing.T, r *rt.Run, c *rt.Case) {
 	c.Key("cl|%d|%d", c.I, nev)
 }
 
+// c25terminated: the gateway ends the client (DISCONNECT or an undecodable datagram) while some API
+// calls are blocked, and further calls of every kind start at that very instant.
+func c25terminated(t *testing.T, r *rt.Run, c *rt.Case) {
+	rng := c.Rand()
+	nBlocked := 1 + rng.Intn(3)
+	nNew := 1 + rng.Intn(4)
+	how := rng.Intn(3)
+	ka := []time.Duration{0, 2 * time.Second}[rng.Intn(2)]
+	reps := 12
+	for rep := 0; rep < reps; rep++ {
+		bubble(t, func() {
+			tr := world.NewTrace()
+			sg := newSimpleGw()
+			normal := sg.handler()
+			g := world.NewGwPeer(tr, 0, func(g *world.GwPeer, p *snref.Pkt, raw []byte) {
+				if p != nil && (p.Type == snref.PUBLISH || p.Type == snref.SUBSCRIBE || p.Type == snref.REGISTER) {
+					return // unanswered: the call blocks
+				}
+				normal(g, p, raw)
+			})
+			cfg := stdClientCfg("cl")
+			cfg.KeepAlive = ka
+			cl := newClientOn(g.Link.A, cfg)
+			cl.Dial("mem")
+			cl.Connect()
+			cb := func(*client.Client, string, *p1.Publish) {}
+			calls := []func(){
+				func() { cl.Publish("ab", []byte("x"), 1, false) },
+				func() { cl.Subscribe("t/x", 1, cb) },
+				func() { cl.Register("t/r") },
+				func() { cl.Sleep(time.Second) },
+				func() { cl.Ping() },
+				func() { cl.Disconnect() },
+				func() { cl.Publish("ab", []byte("y"), 2, false) },
+				func() { cl.Connect() },
+				func() { cl.Unsubscribe("t/x") },
+			}
+			var wg sync.WaitGroup
+			for k := 0; k < nBlocked; k++ {
+				f := calls[(c.I+k)%3]
+				wg.Add(1)
+				go func() { defer wg.Done(); f() }()
+			}
+			synctest.Wait()
+			switch how {
+			case 0:
+				g.Send(snref.Disconnect())
+			case 1:
+				g.SendRaw([]byte{0x03, 0x19, 0x00})
+			case 2:
+				go cl.Close()
+			}
+			for k := 0; k < nNew; k++ {
+				f := calls[(c.I+rep+k*2)%len(calls)]
+				wg.Add(1)
+				go func() { defer wg.Done(); f() }()
+			}
+			done := make(chan struct{})
+			go func() { wg.Wait(); cl.Close(); close(done) }()
+			for i := 0; i < 200; i++ {
+				synctest.Wait()
+				select {
+				case <-done:
+					i = 1000
+				default:
+					time.Sleep(time.Second)
+				}
+			}
+			g.Close()
+			synctest.Wait()
+			select {
+			case <-done:
+			default:
+				c.Inconclusive("an API call did not return (judged by C28); the process restarts")
+				c.MarkDone()
+				c.R.ExitNow()
+			}
+		})
+	}
+	c.Desc = fmt.Sprintf("client terminated (how=%d) with %d blocked calls while %d new calls start, keepalive %v, %d repetitions", how, nBlocked, nNew, ka, reps)
+	r.Count("terminated_client_cases", reps)
+	c.Key("term|%d", c.I)
+}
+
 func TestC25(t *testing.T) {
 	r := rt.Start(t, "C25")
-	nG, nB, nC := r.N(6000, 120000), r.N(4000, 80000), r.N(4000, 80000)
-	r.Each(t, nG+nB+nC, 0, func(i int) string {
+	nG, nB, nC, nT := r.N(6000, 120000), r.N(4000, 80000), r.N(4000, 80000), r.N(300, 6000)
+	r.Each(t, nG+nB+nC+nT, 0, func(i int) string {
+		if i >= nG+nB+nC {
+			return fmt.Sprintf("client-terminated-with-calls-in-flight#%d", i-nG-nB-nC)
+		}
 		switch {
 		case i < nG:
 			return fmt.Sprintf("gateway-vs-hostile-client#%d", i)
@@ -402,6 +489,8 @@ func TestC25(t *testing.T) {
 		return fmt.Sprintf("client-vs-hostile-gateway#%d", i-nG-nB)
 	}, func(t *testing.T, c *rt.Case) {
 		switch {
+		case c.I >= nG+nB+nC:
+			c25terminated(t, r, c)
 		case c.I < nG:
 			c25gateway(t, r, c)
 		case c.I < nG+nB:
@@ -413,5 +502,5 @@ func TestC25(t *testing.T) {
 			r.Sample(map[string]interface{}{"case": c.Desc})
 		}
 	})
-	r.Finish("stateful fuzzing on three fronts in virtual time, decodable packets only. (1) hostile MQTT-SN client -> real gateway session: 5-45 steps of random packets of all 28 types (message IDs, topic IDs and names from small alphabets so that they hit pending exchanges and registered topics), broker publishes and raw broker packets, gaps {0, 1 ms, 0.1 s, 1 s, 4.9 s, 11 s, 61 s}, with and without waiting for quiescence between steps (the receive loops race), auth on/off, broker variants; (2) hostile broker -> gateway session of a well-behaved client: every 2nd/4th/10th broker answer replaced by a random MQTT packet (acks with wrong IDs, SUBACK with 0/2 codes, CONNECT/SUBSCRIBE/PINGREQ/DISCONNECT from the broker, PUBLISH with QoS 3 / empty / wildcard topic / 9000-byte payload), plus unsolicited ones; (3) hostile gateway -> real client library with 3-13 API calls started concurrently (keep-alive off/2 s/30 s): every 2nd/3rd/8th answer replaced by a random packet of any type (often with the request's message ID), plus unsolicited packets. Oracle: the process survives - a panic, fatal error, failed type assertion or synctest deadlock in any goroutine kills the child process, which the driver pins to the case by re-running the pending cases serially; the 'race' phase repeats the list under the race detector (reports are listed as diagnostics).", nil)
+	r.Finish("stateful fuzzing on three fronts in virtual time, decodable packets only. (1) hostile MQTT-SN client -> real gateway session: 5-45 steps of random packets of all 28 types (message IDs, topic IDs and names from small alphabets so that they hit pending exchanges and registered topics), broker publishes and raw broker packets, gaps {0, 1 ms, 0.1 s, 1 s, 4.9 s, 11 s, 61 s}, with and without waiting for quiescence between steps (the receive loops race), auth on/off, broker variants; (2) hostile broker -> gateway session of a well-behaved client: every 2nd/4th/10th broker answer replaced by a random MQTT packet (acks with wrong IDs, SUBACK with 0/2 codes, CONNECT/SUBSCRIBE/PINGREQ/DISCONNECT from the broker, PUBLISH with QoS 3 / empty / wildcard topic / 9000-byte payload), plus unsolicited ones; (3) hostile gateway -> real client library with 3-13 API calls started concurrently (keep-alive off/2 s/30 s): every 2nd/3rd/8th answer replaced by a random packet of any type (often with the request's message ID), plus unsolicited packets; (4) the gateway ends the client (DISCONNECT, undecodable datagram, or the application calls Close) while 1-3 API calls are blocked and 1-4 further calls of every kind start at that very instant, 12 repetitions per case. Oracle: the process survives - a panic, fatal error, failed type assertion or synctest deadlock in any goroutine kills the child process, which the driver pins to the case by re-running the pending cases serially; the 'race' phase repeats the list under the race detector (reports are listed as diagnostics).", nil)
 }
